@@ -188,14 +188,14 @@ def compare(a, b, fa, fb, retired_order=None):
         check("call_count", pa.procedure_count == pb.procedure_count)
 
 
-def equivalence(make_program, detect=True, steps_b=40, prepare=None):
+def equivalence(make_program, detect=True, steps_b=40, prepare=None, steps_a=12):
     a, b, regs0 = twin_states(detect)
     if prepare is not None:
         prepare(a)
         prepare(b)
     load(a, make_program())
     load(b, make_program())
-    fa = run(RiscvSimulation(state=a), 12)
+    fa = run(RiscvSimulation(state=a), steps_a)
     fb = run(RiscvSimulation(state=b), steps_b)
     compare(a, b, fa, fb)
 
